@@ -28,6 +28,8 @@ def tests(S):
 def run(case):
     d = os.path.join(SEEDED, case)
     prop = case.split('_')[0]
+    if prop.startswith('H'):
+        return run_harmless(case)
     S = tempfile.mkdtemp(prefix='pvc_seed_')
     try:
         sh(['rsync', '-a', '--exclude', '.git', '--exclude', 'docs', '--exclude', '__pycache__', '/repo/', S + '/'])
@@ -50,11 +52,35 @@ def run(case):
         shutil.rmtree(S, ignore_errors=True)
 
 
+def run_harmless(case):
+    """behaviour-preserving refactoring: the check must stay silent (exit 0, no VIOLATION)"""
+    d = os.path.join(SEEDED, case)
+    prop = 'C' + case[1:3]
+    S = tempfile.mkdtemp(prefix='pvc_seed_')
+    try:
+        sh(['rsync', '-a', '--exclude', '.git', '--exclude', 'docs', '--exclude', '__pycache__', '/repo/', S + '/'])
+        a = sh(['git', 'apply', '--unsafe-paths', '--directory', S, os.path.join(d, 'patch.diff')], cwd='/')
+        if a.returncode:
+            a = sh(['patch', '-p1', '-i', os.path.join(d, 'patch.diff')], cwd=S)
+            if a.returncode:
+                return case, 'patch-failed', a.stderr[-200:] + a.stdout[-200:]
+        t = tests(S)
+        env = dict(os.environ, PVC_REPO=S, PVC_JOBS='4')
+        r = sh([os.path.join(HERE, '..', 'check'), prop, '--no-evidence'], env=env)
+        v = [l for l in r.stdout.splitlines() if l.startswith('VIOLATION')]
+        st = 'silent' if r.returncode == 0 and not v else ('FALSE-ALARM' if v else 'NOT-SILENT(exit %d)' % r.returncode)
+        info = v[0] if v else (r.stdout.strip().splitlines() or [r.stderr[-200:]])[-1]
+        extra = [l for l in r.stdout.splitlines() if 'UNDECIDED' in l or 'NOT-PROVED' in l or 'ERROR' in l]
+        return case, st, 'tests[%s] %s %s' % (t, info, ' | '.join(x.strip()[:160] for x in extra[:3]))
+    finally:
+        shutil.rmtree(S, ignore_errors=True)
+
+
 def main():
     if sys.argv[1] == 'import':
         src = sys.argv[2]
         for n in sorted(os.listdir(src)):
-            if re.fullmatch(r'C\d\d_\d', n) and os.path.exists(os.path.join(src, n, 'patch.diff')):
+            if re.fullmatch(r'[CH]\d\d_\d', n) and os.path.exists(os.path.join(src, n, 'patch.diff')):
                 dst = os.path.join(SEEDED, n)
                 if not os.path.exists(dst):
                     shutil.copytree(os.path.join(src, n), dst)
